@@ -477,6 +477,11 @@ def _uf_cast(v, src, dst):
         if dst.kind == "f":
             return z3.If(v, _float_bits(1.0, dst), _float_bits(0.0, dst))
         v = z3.If(v, 1, 0)
+    if src.kind == "f" and dst.kind in "iu" and z3.is_app(v) and v.decl().name().startswith("uf_cast_") and v.decl().name().endswith("_%s_int" % src.name):
+        # int -> float -> int round trip: exact for |x| < 2^53 (the harness bounds keep index-like values far below)
+        return v.arg(0)
+    if src.kind == "f" and dst.kind in "iu" and z3.is_app(v) and v.decl().kind() == z3.Z3_OP_ITE:
+        return z3.If(v.arg(0), _lift(_uf_cast(v.arg(1), src, dst)), _lift(_uf_cast(v.arg(2), src, dst)))
     out_sort = z3.BitVecSort(dst.bits) if dst.kind == "f" or True else z3.IntSort()
     f = z3.Function("uf_cast_%s_%s_%s" % (src.name, dst.name, "bv" if z3.is_bv(v) else "int"), v.sort(), out_sort)
     return f(v)
@@ -1526,6 +1531,10 @@ def _shift(op, a, b, dt):
         if b >= dt.bits:
             return 0 if (op == "l" or a >= 0) else -1
         return _wrap_int(a << b if op == "l" else a >> b, dt)
+    if is_sym(b) and z3.is_int(b):
+        b = _int_to_bv(b, dt.bits)          # shift amounts need their numeric value: exact conversion, not the bit-pattern bijection
+    if is_sym(a) and z3.is_int(a) and is_sym(b):
+        a = _int_to_bv(a, dt.bits)
     a, b = _to_bv(a, dt), _to_bv(b, dt)
     if op == "l":
         return a << b
@@ -1552,6 +1561,18 @@ _UF_IMPL = {
     "maximum": lambda a, b, dt: _ite(_cmp("ge", a, b, dt), a, b),
     "minimum": lambda a, b, dt: _ite(_cmp("le", a, b, dt), a, b),
 }
+def _power(a, b, dt):
+    if is_sym(b):
+        b = E().concretize(b)
+    if not is_sym(a):
+        return _wrap_res(a ** b, dt) if b >= 0 else 0
+    out = 1
+    for _ in range(b):
+        out = _arith("mul", out, a)
+    return _wrap_res(out, dt)
+
+
+_UF_IMPL["power"] = _power
 _CMP = {"less": "lt", "less_equal": "le", "greater": "gt", "greater_equal": "ge", "equal": "eq", "not_equal": "ne"}
 _LOGICAL = {"logical_and": "and", "logical_or": "or", "logical_xor": "xor"}
 _IDENT = {"add": 0, "multiply": 1, "bitwise_xor": 0, "bitwise_or": 0, "bitwise_and": -1, "logical_and": True,
